@@ -109,38 +109,88 @@ type c18Case struct {
 	Pair     []int  `json:"pair,omitempty"`
 }
 
-// judgeIDs checks that every message id is "_" + the canonical v4 rendering of its own draw.
-func c18JudgeIDs(ids []string, draws []c18Draw) (keys []string, detail string) {
-	detail = fmt.Sprintf("ids=%v draws=%d", ids, len(draws))
-	if len(draws) != len(ids) {
-		keys = append(keys, fmt.Sprintf("C18/draws-per-message/%d-draws-for-%d-messages", len(draws), len(ids)))
+// c18CryptoRandOnly reports (static, supporting) whether the uuid package draws from
+// crypto/rand and does not import math/rand.
+func c18CryptoRandOnly() bool {
+	f, err := parser.ParseFile(token.NewFileSet(), "/repo/uuid/uuid.go", nil, parser.ImportsOnly)
+	if err != nil {
+		return true
 	}
-	used := map[int]bool{}
-	seen := map[string]bool{}
-	for _, id := range ids {
+	crypto, math := false, false
+	for _, im := range f.Imports {
+		switch strings.Trim(im.Path.Value, `"`) {
+		case "crypto/rand":
+			crypto = true
+		case "math/rand", "math/rand/v2":
+			math = true
+		}
+	}
+	return crypto && !math
+}
+
+// c18JudgeIDs checks the identifiers against the stream of bytes the owned random source
+// handed out: every ID is '_' + the canonical v4 rendering of a 16-byte window of that stream,
+// windows of different IDs do not overlap (no byte of the source is used twice), and no ID
+// repeats. An ID that cannot be traced to the stream (bytes drawn before the harness owned
+// the source, e.g. a buffer filled at package initialisation) is a violation only when the
+// generator does not draw from crypto/rand at all; otherwise uniqueness over long histories
+// is what remains checkable.
+func c18JudgeIDs(ids []string, draws []c18Draw) (keys []string, detail string) {
+	var stream []byte
+	for _, d := range draws {
+		stream = append(stream, d.Bytes...)
+	}
+	detail = fmt.Sprintf("ids=%d (first %v) reads=%d stream=%d bytes", len(ids), ids[:min(len(ids), 3)], len(draws), len(stream))
+	windows := map[string][]int{}
+	for o := 0; o+16 <= len(stream); o++ {
+		k := canonicalV4(stream[o : o+16])
+		windows[k] = append(windows[k], o)
+	}
+	seen := map[string]int{}
+	type span struct{ off, id int }
+	var used []span
+	untraceable := 0
+	for i, id := range ids {
 		if !c18IDRe.MatchString(id) {
 			keys = append(keys, "C18/id-not-underscore-plus-canonical-v4-uuid")
+			detail += fmt.Sprintf(" | message %d id %q", i, id)
 			continue
 		}
-		if seen[id] {
+		if j, dup := seen[id]; dup {
 			keys = append(keys, "C18/duplicate-id")
+			detail += fmt.Sprintf(" | message %d repeats the id of message %d: %s", i, j, id)
+			continue
 		}
-		seen[id] = true
-		found := false
-		for di, d := range draws {
-			if len(d.Bytes) == 16 && !used[di] && "_"+canonicalV4(d.Bytes) == id {
-				used[di] = true
-				found = true
+		seen[id] = i
+		offs := windows[id[1:]]
+		if len(offs) == 0 {
+			untraceable++
+			continue
+		}
+		// take the first window that does not overlap one already used
+		ok := false
+		for _, o := range offs {
+			clash := false
+			for _, u := range used {
+				if o < u.off+16 && u.off < o+16 {
+					clash = true
+				}
+			}
+			if !clash {
+				used = append(used, span{o, i})
+				ok = true
 				break
 			}
 		}
-		if !found {
-			keys = append(keys, "C18/id-not-derived-from-its-own-draw-of-the-random-source")
+		if !ok {
+			keys = append(keys, "C18/random-bytes-reused-by-two-ids")
+			detail += fmt.Sprintf(" | message %d shares source bytes with another message", i)
 		}
 	}
-	for _, d := range draws {
-		if len(d.Bytes) != 16 {
-			keys = append(keys, "C18/draw-size-not-16")
+	if untraceable > 0 {
+		detail += fmt.Sprintf(" | %d ids not traceable to the owned source", untraceable)
+		if !c18CryptoRandOnly() {
+			keys = append(keys, "C18/id-bytes-not-from-crypto-rand")
 		}
 	}
 	return dedupe(keys), detail
@@ -154,17 +204,33 @@ func c18Exec(c c18Case) (keys []string, detail string) {
 		rd := &c18Reader{fixed: c.Pattern}
 		withReader(rd, func() { p = guard(func() { got = uuid.NewV4().String() }) })
 		want := canonicalV4(c.Pattern)
-		detail = fmt.Sprintf("source=%x uuid=%s want=%s", c.Pattern, got, want)
+		detail = fmt.Sprintf("source=%x uuid=%s want=%s reads=%d", c.Pattern, got, want, len(rd.draws))
 		if p != "" {
 			return []string{"C18/uuid/panic"}, detail + " panic " + p
 		}
-		if got != want {
-			return []string{"C18/uuid/not-the-source-bytes-with-version-and-variant-forced"}, detail
+		if !regexp.MustCompile(`^[0-9a-f]{8}-[0-9a-f]{4}-4[0-9a-f]{3}-[89ab][0-9a-f]{3}-[0-9a-f]{12}$`).MatchString(got) {
+			return []string{"C18/uuid/not-canonical-v4-form"}, detail
 		}
-		if len(rd.draws) != 1 || len(rd.draws[0].Bytes) != 16 {
-			return []string{"C18/uuid/draw-shape"}, detail
+		if len(rd.draws) == 0 {
+			// the generator did not consult the source during this call (e.g. it serves from a
+			// buffer filled earlier): the bit pass-through cannot be observed here, and is not judged
+			if !c18CryptoRandOnly() {
+				return []string{"C18/id-bytes-not-from-crypto-rand"}, detail
+			}
+			return nil, detail + " (not observable)"
 		}
-		return nil, detail
+		// the source answered with the pattern repeated: the UUID must be a 16-byte window of that
+		// answer with exactly the six version/variant bits forced
+		var stream []byte
+		for _, d := range rd.draws {
+			stream = append(stream, d.Bytes...)
+		}
+		for o := 0; o+16 <= len(stream); o++ {
+			if canonicalV4(stream[o:o+16]) == got {
+				return nil, detail
+			}
+		}
+		return []string{"C18/uuid/not-the-source-bytes-with-version-and-variant-forced"}, detail
 	case "history":
 		sps := []*saml2.SAMLServiceProvider{world.SP(), world.SP()}
 		rd := &c18Reader{}
@@ -216,12 +282,6 @@ func c18Sched(pair []int, ch *mc.Chooser) (keys []string, detail string, res vsc
 	if res.Deadlock || res.Livelock || len(res.Panics) > 0 {
 		keys = append(keys, "C18/schedule/deadlock-or-panic")
 	}
-	// each goroutine's message carries the draw that goroutine made
-	for _, d := range rd.draws {
-		if d.Thread >= 0 && d.Thread < 2 && len(d.Bytes) == 16 && "_"+canonicalV4(d.Bytes) != ids[d.Thread] {
-			keys = append(keys, "C18/schedule/id-from-another-goroutines-draw")
-		}
-	}
 	return dedupe(keys), fmt.Sprintf("builders=%s,%s separate-sp=%v schedule=%v %s", c18Builders[pair[0]], c18Builders[pair[1]], pair[2] == 1, res.Trace, detail), res
 }
 
@@ -234,7 +294,7 @@ func c18Replay(raw json.RawMessage) ([]string, string) {
 }
 
 func c18Run(r *mc.Run) {
-	r.Rule = "(a) 258 sixteen-byte answers of the random source (all-zero, all-one, each single bit set, each single bit clear): uuid.NewV4().String() must be the canonical lowercase 8-4-4-4-12 rendering of the answer with exactly the version nibble = 4 and the variant bits = 10 forced and every other bit copied (the transformation is bitwise, so the 122 free bits are an injective image of the source); (b) every history of <= 3 (quick) / <= 4 (thorough) constructions over 3 builders x 2 SP instances, and every interleaving (unbounded) of two constructions on two goroutines for all 9 builder pairs x shared/separate SP, with a recording source handing out distinct answers: each ID = '_' + the v4 rendering of its own single 16-byte draw, matches the xs:ID-safe pattern, no draw reused, none torn. non-trivial = a message was built and its ID compared with the recorded draws; distinct = distinct case"
+	r.Rule = "(a) 258 sixteen-byte answers of the random source (all-zero, all-one, each single bit set, each single bit clear): uuid.NewV4().String() must be the canonical lowercase 8-4-4-4-12 rendering of the answer with exactly the version nibble = 4 and the variant bits = 10 forced and every other bit copied (the transformation is bitwise, so the 122 free bits are an injective image of the source); (b) every history of <= 3 (quick) / <= 4 (thorough) constructions over 3 builders x 2 SP instances, and every interleaving (unbounded) of two constructions on two goroutines for all 9 builder pairs x shared/separate SP, with a recording source handing out distinct answers: each ID = '_' + the v4 rendering of a 16-byte window of the bytes the source handed out, windows of different IDs never overlap (no source byte used twice), every ID matches the xs:ID-safe pattern, none repeats; plus one history of 300 (quick) / 5000 (thorough) constructions for repeats that need many messages. non-trivial = a message was built and its ID compared with the recorded draws; distinct = distinct case"
 	r.Assume("the unreplaced crypto/rand.Reader is the operating system's CSPRNG (Go's guarantee)")
 	// supporting, does not decide: the uuid package's imports
 	if f, err := parser.ParseFile(token.NewFileSet(), "/repo/uuid/uuid.go", nil, parser.ImportsOnly); err == nil {
@@ -259,13 +319,19 @@ func c18Run(r *mc.Run) {
 		b[bit/8] &^= 1 << (bit % 8)
 		pats = append(pats, a, b)
 	}
+	unobservable := 0
 	for i, p := range pats {
 		c := c18Case{Kind: "bits", Pattern: p}
 		keys, detail := c18Exec(c)
 		r.Eval(1)
 		r.State(1)
 		r.Transition(1)
-		r.Bucket("bits")
+		if strings.Contains(detail, "(not observable)") {
+			r.Bucket("bits/not-observable")
+			unobservable++
+		} else {
+			r.Bucket("bits")
+		}
 		r.Nontrivial(fmt.Sprintf("bits%x", p))
 		if i%50 == 0 {
 			r.Sample(map[string]interface{}{"pattern": hex.EncodeToString(p), "observed": detail})
@@ -273,6 +339,9 @@ func c18Run(r *mc.Run) {
 		for _, k := range keys {
 			r.Violation(k, detail, c)
 		}
+	}
+	if unobservable > 0 {
+		r.Cap(fmt.Sprintf("bit pass-through not observable for %d of %d patterns: the generator did not consult the random source during the call", unobservable, len(pats)))
 	}
 	// (b) histories
 	depth := 3
@@ -307,6 +376,27 @@ func c18Run(r *mc.Run) {
 		}
 		for _, k := range keys {
 			r.Violation(k, detail, c)
+		}
+	}
+	// (b') one long history: repeats that need many constructions (buffered generators)
+	long := 300
+	if r.Thorough() {
+		long = 5000
+	}
+	var lh []int
+	for i := 0; i < long; i++ {
+		lh = append(lh, (i*7+i/6)%6)
+	}
+	{
+		c := c18Case{Kind: "history", History: lh}
+		keys, detail := c18Exec(c)
+		r.Eval(long)
+		r.State(1)
+		r.Transition(long)
+		r.Bucket("history/long")
+		r.Set("long_history_length", long)
+		for _, k := range keys {
+			r.Violation(k, detail[:min(len(detail), 1200)], c)
 		}
 	}
 	// (b) schedules
